@@ -492,7 +492,7 @@ def main(tier):
     if tier == 'quick':
         cn, on, cap = (4, 6), (2, 3), 100
     else:
-        cn, on, cap = (4, 6, 8), (2, 3, 4, 5), 200
+        cn, on, cap = (4, 6, 8), (2, 3, 4, 5), 130
         os.environ['C04_TIMEOUT_MS'] = '600000'     # forked workers inherit
     jobs = []
     shapes_used = {}
